@@ -291,6 +291,10 @@ def run(R, tier, seed, driver_ok):
         dd = int(rng.randint(2, 4)); ncl = 2
         Xk_, yk_ = zoo.blobs(rng, dd, ncl, 10)
         Xk_ = np.hstack([Xk_, np.full((len(Xk_), 1), float(rng.randint(0, 3)))])
+        if rep == 0:
+            # the instance quoted in the known-findings file, on every run
+            r0 = np.random.RandomState(0); dd = 2
+            Xk_ = np.c_[r0.randn(20, 2), np.zeros(20)]; yk_ = np.arange(20) % 2
         for emb in ('plain', 'weighted', 'orthonormalized'):
             for nco in (None, dd):
                 case = {'est': 'LFDA', 'params': {'embedding_type': emb, 'n_components': nco}, 'X': Xk_, 'y': yk_, 'note': 'the last feature is constant'}
